@@ -4,7 +4,14 @@
 (l) `LRUCache` alone on random get/set sequences (sizes 0-3);
 (b) the three real webhook handlers and `Repository.get_build_status` of the GitHub and Bitbucket classes,
     with a scripted HTTP session standing for the host and the module-level status cache forced to size 1-2.
-The property oracle is stated here independently of the model, on the observations of the real code only.
+    Besides the sequences over 2 commits there is a family over 3-6 commits (`gen_recency`): a commit seen
+    SUCCESSFUL, other commits filling the cache, the green commit READ again (poll or status event: both call
+    `LRUCache.get`), fewer / as many / more new commits than the cache has room for, the host now reporting
+    FAILED, a poll - the order of USE and the order of INSERTION of the entries differ there.
+The property oracle is stated here independently of the model, on the observations of the real code only:
+"among the most recently used entries of the bounded status cache" is judged by the harness's own recency
+bookkeeping (`Recency`: per build key the `size` commits used last, a use being every `LRUCache.set` and every
+`LRUCache.get` that hits, as recorded by a spy subclass of the real class) - never by looking into the cache.
 """
 import itertools
 import json
@@ -26,8 +33,9 @@ ASSUMPTIONS = [
     'conclusions are within the ranking dict or a second run of the same workflow raises KeyError (modelled as crash)',
     'one process, no concurrent access to the module-level cache (the server handles webhooks and jobs in two '
     'threads; interleavings inside one handler are not modelled)',
-    'the LRU size is the default of LRUCache (extracted: 1000, obligation 1 <= size); the tie forces sizes 1-2 to '
-    'exercise eviction, the theorems hold for every size >= 1',
+    'the LRU size is the default of LRUCache (extracted: 1000, obligation 1 <= size); the tie forces sizes 1-3 to '
+    'exercise eviction (a spy subclass of the real LRUCache records its get / set calls for the oracle), the theorems '
+    'hold for every size >= 1',
 ]
 TRUSTED = [
     'Lean 4 kernel; axioms of every theorem audited (subset of propext, Classical.choice, Quot.sound)',
@@ -53,6 +61,7 @@ PAIRS8 = PAIRS + [('completed', None), ('pending', 'success')]
 MEDIUM = [(e, s, c, w, b) for e in EVENTS for (s, c) in PAIRS8 for w in WIDS for b in BRANCHES]
 
 COMMITS = ['c0', 'c1']
+COMMITS6 = ['c0', 'c1', 'c2', 'c3', 'c4', 'c5']   # the recency family: eviction at sizes 2-3 needs 3-4 commits under one key
 GH_KEYS = ['k0', 'github_actions']          # the two build keys polled on GitHub
 BB_KEYS = ['k0', 'k1']
 UNIVERSE = ['k0', 'k1', 'github_actions']   # keys whose LRU is observed
@@ -236,18 +245,40 @@ def _store_obs(cache):
     return '&'.join(parts)
 
 
+_USES = []          # (id of the LRUCache instance, 'g' | 's', commit) in call order: the spy's record of one op
+
+
+def _spy_class(LRUCache):
+    """The real LRUCache with its two entry points recorded (nothing else is changed: both call the real method)."""
+    if 'spy' not in _SETUP:
+        class SpyLRU(LRUCache):
+            def get(self, key, default=None):
+                _USES.append((id(self), 'g', key))
+                return LRUCache.get(self, key, default)
+
+            def set(self, key, val):
+                _USES.append((id(self), 's', key))
+                return LRUCache.set(self, key, val)
+        _SETUP['spy'] = SpyLRU
+    return _SETUP['spy']
+
+
 def real_sm(case):
-    """Run the real handlers / get_build_status on one sequence. Observation per op: answer|cache content."""
+    """Run the real handlers / get_build_status on one sequence. Observation per op: answer|cache content.
+    Second result: per op, the `LRUCache.get` / `.set` calls the real code made, as `key:g|s:commit` in call order
+    (the input of the oracle's recency bookkeeping)."""
     s = _setup()
     cache, webhook = s['cache'], s['webhook']
     cap = case['cap']
-    LRUCache = s['LRUCache']
+    Spy = _spy_class(s['LRUCache'])
     # the module-level cache: same defaultdict object (webhook.py holds a reference), forced size, emptied
-    cache.BUILD_STATUS_CACHE.default_factory = lambda: LRUCache(cap)
+    cache.BUILD_STATUS_CACHE.default_factory = lambda: Spy(cap)
     cache.BUILD_STATUS_CACHE.clear()
     out = []
+    uses = []
     for op in case['ops']:
         kind = op[0]
+        del _USES[:]
         try:
             if kind == 'gs':
                 job = webhook.handle_github_status_event(s['gbe'], {
@@ -278,8 +309,11 @@ def real_sm(case):
             out.append('crash %s' % type(e).__name__)
             break
         out.append('%s|%s' % (ans, _store_obs(cache)))
+        names = {id(lru): k for k, lru in cache.BUILD_STATUS_CACHE.items()}
+        uses.append(','.join('%s:%s:%s' % (names.get(i, '?'), a, c) for i, a, c in _USES))
     cache.BUILD_STATUS_CACHE.clear()
-    return ';'.join(out)
+    cache.BUILD_STATUS_CACHE.default_factory = s['LRUCache']
+    return ';'.join(out), ';'.join(uses)
 
 
 # --------------------------------------------------------------------------- the property, independently
@@ -320,24 +354,45 @@ def host_state(op):
     return allk.get(op[2], 'NOTSTARTED'), allk
 
 
-def parse_store(txt):
-    res = {}
-    for part in txt.split('&'):
-        k, _, body = part.partition('=[')
-        res[k] = [e.split('=')[0] for e in body[:-1].split(',') if e]
-    return res
+class Recency:
+    """The harness's own statement of "the most recently used entries of the bounded status cache": per build key
+    the `size` commits that were used last, most recent first.  A use is every `set` and every `get` that hits
+    (a `get` of a commit that is not among them is a miss and uses nothing).  Fed with the calls recorded by the
+    spy; it never looks at what the real cache holds."""
+
+    def __init__(self, size):
+        self.size = size
+        self.last = {}
+
+    def use(self, key, action, commit):
+        l = self.last.setdefault(key, [])
+        if action == 's' or commit in l:
+            if commit in l:
+                l.remove(commit)
+            l.insert(0, commit)
+            del l[self.size:]
+
+    def among(self, key, commit):
+        return commit in self.last.get(key, ())
 
 
-def oracle_sm(case, obs):
-    """Once (commit, key) was seen SUCCESSFUL and as long as the commit stays in the cache of that key, every
-    poll answers SUCCESSFUL; any other poll answers what the host currently reports."""
+def parse_uses(txt):
+    return [tuple(u.split(':')) for u in txt.split(',') if u]
+
+
+def oracle_sm(case, obs, uses):
+    """Once (commit, key) was seen SUCCESSFUL and as long as the commit stays among the most recently used entries
+    of the cache of that key (`Recency`), every poll answers SUCCESSFUL; any other poll answers what the host
+    currently reports."""
     fails = []
-    green = set()                      # (commit, key) seen SUCCESSFUL and retained ever since
+    green = set()                      # (commit, key) seen SUCCESSFUL and among the most recently used ever since
+    rec = Recency(case['cap'])
     steps = obs.split(';') if obs else []
+    used = uses.split(';') if obs else []
     for i, op in enumerate(case['ops']):
         if i >= len(steps) or steps[i].startswith('crash'):
             break
-        ans, _, store = steps[i].partition('|')
+        ans = steps[i].partition('|')[0]
         kind, c = op[0], op[1]
         seen = []
         if kind in ('gs', 'bs'):
@@ -352,8 +407,9 @@ def oracle_sm(case, obs):
             mine, allk = host_state(op)
             if (c, k) in green:
                 if ans != 'SUCCESSFUL':
-                    fails.append(('sticky', 'op %d: (%s, %s) was seen SUCCESSFUL and is still cached, yet the '
-                                  'answer is %s' % (i, c, k, ans)))
+                    fails.append(('sticky', 'op %d: (%s, %s) was seen SUCCESSFUL and has been among the %d most '
+                                  'recently used commits of that key ever since (%s), yet the answer is %s'
+                                  % (i, c, k, rec.size, ','.join(rec.last.get(k, [])), ans)))
             else:
                 if ans != mine:
                     fails.append(('fresh', 'op %d: (%s, %s) has no retained SUCCESSFUL, the host reports %s, yet '
@@ -362,9 +418,11 @@ def oracle_sm(case, obs):
                 seen += [(c, k2) for k2, s2 in allk.items() if s2 == 'SUCCESSFUL']
             if ans == 'SUCCESSFUL':
                 seen.append((c, k))
+        for k2, action, c2 in parse_uses(used[i] if i < len(used) else ''):
+            rec.use(k2, action, c2)
+            green = {(c3, k3) for (c3, k3) in green if rec.among(k3, c3)}
         green |= set(seen)
-        content = parse_store(store)
-        green = {(c2, k2) for (c2, k2) in green if c2 in content.get(k2, [])}
+        green = {(c2, k2) for (c2, k2) in green if rec.among(k2, c2)}
     return fails
 
 
@@ -409,8 +467,18 @@ def reduced_ops(host):
     return ops
 
 
-def random_op(rng, host):
-    c = rng.choice(COMMITS)
+def random_op(rng, host, commits=COMMITS, one_key=False):
+    """one operation of the full alphabet; `one_key`: 3 of 4 status events / polls are about k0 (eviction needs
+    several commits under ONE key)"""
+    c = rng.choice(commits)
+    if one_key and rng.random() < 0.75:
+        if host == 'github':
+            if rng.random() < 0.4:
+                return ('gs', c, 'k0', rng.choice(['success', 'success', 'failure', 'pending', 'error']))
+            sts = (('k0', rng.choice(['success', 'failure', 'failure', 'pending'])),)
+            return ('gp', c, 'k0', (sts, rng.choice('NSF')))
+        states = ['SUCCESSFUL', 'SUCCESSFUL', 'FAILED', 'FAILED', 'INPROGRESS']
+        return ('bs' if rng.random() < 0.4 else 'bp', c, 'k0', rng.choice(states))
     if host == 'github':
         r = rng.random()
         if r < 0.3:
@@ -442,6 +510,71 @@ def exhaustive_len(ctx, cap):
     return 3
 
 
+def _insert_op(rng, host, c, k, state=None):
+    """an operation that makes the code store (c, k): a status event or a poll the host answers"""
+    if host == 'github':
+        raw = state or rng.choice(['failure', 'pending', 'error', 'success'])
+        if k == 'github_actions':
+            menu = {'success': 'S', 'failure': 'F', 'error': 'F', 'pending': 'I'}[raw]
+            if rng.random() < 0.5:
+                return ('cs', c, menu)
+            return ('gp', c, k, ((), menu))
+        if rng.random() < 0.5:
+            return ('gs', c, k, raw)
+        return ('gp', c, k, (((k, raw),), rng.choice('NF')))
+    st = {'success': 'SUCCESSFUL', 'failure': 'FAILED', None: None}[state] or \
+        rng.choice(['FAILED', 'INPROGRESS', 'STOPPED', 'SUCCESSFUL'])
+    return ('bs' if rng.random() < 0.5 else 'bp', c, k, st)
+
+
+def _poll_op(host, c, k, state):
+    """a poll of (c, k) while the host reports `state` (success | failure) for it"""
+    if host == 'github':
+        if k == 'github_actions':
+            return ('gp', c, k, ((), 'S' if state == 'success' else 'F'))
+        return ('gp', c, k, (((k, state),), 'N'))
+    return ('bp', c, k, 'SUCCESSFUL' if state == 'success' else 'FAILED')
+
+
+def gen_recency(rng, host):
+    """One sequence in which the order of use differs from the order of insertion: the commit g is seen SUCCESSFUL
+    under key k; `size - 1` other commits fill the cache of k; g is READ (a poll, or a status event - the handlers
+    call `get` first; or not at all: 1 in 6); `new` other commits are stored (new < size: g is still among the
+    `size` most recently used; new >= size: it no longer is); the host now reports FAILED for g and g is polled.
+    A third of the sequences get one random operation inserted somewhere."""
+    cap = rng.choice((2, 2, 2, 3))
+    k = rng.choice(GH_KEYS if host == 'github' else BB_KEYS)
+    commits = COMMITS6[:]
+    rng.shuffle(commits)
+    g, others = commits[0], commits[1:]
+    ops = [_insert_op(rng, host, g, k, 'success')]
+    fill = others[:cap - 1]
+    for c in fill:
+        ops.append(_insert_op(rng, host, c, k))
+    r = rng.random()
+    if r < 1 / 6:
+        read = 'noread'
+    elif r < 0.6:
+        read = 'poll'
+        ops.append(_poll_op(host, g, k, rng.choice(['success', 'failure'])))
+    else:
+        read = 'event'
+        if host == 'github':
+            ops.append(('cs', g, rng.choice('FIS')) if k == 'github_actions'
+                       else ('gs', g, k, rng.choice(['failure', 'pending', 'success'])))
+        else:
+            ops.append(('bs', g, k, rng.choice(['FAILED', 'INPROGRESS', 'SUCCESSFUL'])))
+    new = rng.randint(1, cap)
+    for c in others[len(fill):len(fill) + new]:
+        ops.append(_insert_op(rng, host, c, k))
+    ops.append(_poll_op(host, g, k, 'failure'))
+    if rng.random() < 1 / 3:
+        ops.insert(rng.randrange(1, len(ops)), random_op(rng, host, COMMITS6))
+    shape = 'size=%d %s then %d new (%s)' % (cap, read, new, 'still recent' if new < cap and read != 'noread'
+                                             else 'no longer recent')
+    return {'host': host, 'cap': cap, 'ops': tuple(ops), 'shape': shape}
+
+
 def gen_sm(ctx):
     """Yield (tag, case). A sequence of length n also covers each of its prefixes (one observation per op)."""
     for host in (() if ctx.searching else ('github', 'bitbucket')):
@@ -456,6 +589,17 @@ def gen_sm(ctx):
         n = 5 if rng.random() < 0.9 else rng.choice((6, 8))
         yield 'random %s' % host, {'host': host, 'cap': rng.choice((1, 1, 2, 2, 3)),
                                     'ops': tuple(random_op(rng, host) for _ in range(n))}
+    # use order against insertion order (3-6 commits); and random sequences over 3 commits, where size 2 evicts
+    rng = common.rng_for(ctx.seed, 'C17', 'sm-recency', 'search' if ctx.searching else '')
+    for _ in range((60000 if ctx.tier == 'thorough' else 6000) * ctx.scale):
+        host = rng.choice(('github', 'bitbucket'))
+        yield 'recency %s' % host, gen_recency(rng, host)
+    for _ in range((60000 if ctx.tier == 'thorough' else 6000) * ctx.scale):
+        host = rng.choice(('github', 'bitbucket'))
+        n = rng.choice((5, 5, 6, 8))
+        yield 'random3 %s' % host, {'host': host, 'cap': rng.choice((1, 2, 2, 2, 3)),
+                                     'ops': tuple(random_op(rng, host, COMMITS6[:3], one_key=True)
+                                                  for _ in range(n))}
 
 
 def gen_lru(ctx):
@@ -482,8 +626,8 @@ def _work_agg(chunk):
 def _work_sm(chunk):
     out = []
     for case in chunk:
-        obs = real_sm(case)
-        out.append((obs, oracle_sm(case, obs)))
+        obs, uses = real_sm(case)
+        out.append((obs, [(key, what, uses) for key, what in oracle_sm(case, obs, uses)]))
     return out
 
 
@@ -500,8 +644,10 @@ def jsonable_case(kind, case):
         return {'kind': 'agg', 'runs': [list(r) for r in case]}
     if kind == 'lru':
         return {'kind': 'lru', 'cap': case['cap'], 'accesses': [list(a) for a in case['accesses']]}
-    return {'kind': 'sm', 'host': case['host'], 'cap': case['cap'],
-            'ops': json.loads(json.dumps(case['ops']))}
+    d = {'kind': 'sm', 'host': case['host'], 'cap': case['cap'], 'ops': json.loads(json.dumps(case['ops']))}
+    if 'shape' in case:
+        d['shape'] = case['shape']
+    return d
 
 
 def from_json(d):
@@ -516,7 +662,10 @@ def from_json(d):
         if op[0] == 'gp' and not isinstance(op[3], str):
             op[3] = (tuple(tuple(s) for s in op[3][0]), op[3][1])
         return tuple(op)
-    return 'sm', {'host': d['host'], 'cap': d['cap'], 'ops': tuple(tup(o) for o in d['ops'])}
+    case = {'host': d['host'], 'cap': d['cap'], 'ops': tuple(tup(o) for o in d['ops'])}
+    if 'shape' in d:
+        case['shape'] = d['shape']
+    return 'sm', case
 
 
 def corpus_cases():
@@ -568,6 +717,8 @@ def _evaluate(res, ctx, kind, tagged, real_results, model_answers):
         elif kind == 'sm':
             for step in obs.split(';'):
                 res.count('answer:' + step.split('|')[0])
+            if 'shape' in case:
+                res.count('recency:' + case['shape'])
             if len(case['ops']) > 1:
                 if tag.startswith('exhaustive'):
                     res.distinct.extra += 1
@@ -577,9 +728,11 @@ def _evaluate(res, ctx, kind, tagged, real_results, model_answers):
         else:
             res.distinct.add(hash(('lru', case['cap'], case['accesses'])))
             fails = []
-        for key, what in fails:
+        for f in fails:
+            key, what = f[0], f[1]
             res.oracle_failures.append({'key': key, 'what': what, 'input': jsonable_case(kind, case),
-                                        'observation': obs})
+                                        'observation': obs if len(f) < 3 else {'answers|cache': obs,
+                                                                                 'cache calls': f[2]}})
         if ans is not None:
             res.model_compared += 1
             if ans != obs:
@@ -615,8 +768,12 @@ def correspondence(ctx):
                 '(b) sequences of webhook events and polls over 2 commits x 2 build keys on both host classes, '
                 'cache size 1-3: every sequence of a 16-operation alphabet (length 3 quick; thorough: length 5 '
                 'at size 1, length 4 at size 2; prefixes observed) and random sequences of 5-8 operations of the full alphabet (404, partial '
-                'reports, check-suite events, INPROGRESS/STOPPED). distinct = distinct input with at least one '
-                'considered run / two operations')
+                'reports, check-suite events, INPROGRESS/STOPPED); sequences over 3-6 commits under one key at size 2-3 '
+                'in which use order and insertion order differ (green commit, size-1 fillers, the green commit read '
+                'again by a poll / a status event / not at all, 1..size new commits, host now FAILED, poll; a third '
+                'with one random operation inserted) and random sequences of 5-8 operations over 3 commits, 3 in 4 on one '
+                'key; the oracle judges "most recently used" by its own bookkeeping of the get hits and sets the real code '
+                'made. distinct = distinct input with at least one considered run / two operations')
     # corpus first
     for name, (kind, case) in corpus_cases():
         _run_part(res, ctx, kind, [('corpus ' + name, case)])
